@@ -86,6 +86,36 @@ func c01Scenarios(tier string) []*hist.Scenario {
 		add("txt", "", []string{"init.t"}, []string{"t.styFx", "t.styF"}, 3, 3, 3, 1)
 		add("tree", "", []string{"init.tr"}, []string{"tr.sty0x", "tr.sty0"}, 3, 3, 3, 1)
 		add("txt", "", []string{"init.t"}, []string{"t.styFx", "t.styF"}, 2, 3, 3, 0)
+		// an edit on top of the client's own not-yet-synced edit, while a peer
+		// concurrently removes / moves / overwrites what the first edit anchored on:
+		// one client makes one edit, the other two (the second behind its own
+		// first), both role assignments, K3 Y3 (1.9k histories each)
+		for _, tr := range []struct {
+			fam  string
+			init []string
+			a    string
+			b    []string
+		}{
+			{"arr", []string{"init.a"}, "a.del0", []string{"a.ins0", "a.ins1"}},
+			{"arr", []string{"init.a"}, "a.mv0L", []string{"a.ins0", "a.ins1"}},
+			{"obj", []string{"init.o"}, "o.del1", []string{"o.setobj1", "o.setin1"}},
+			{"obj", []string{"init.o"}, "o.set1", []string{"o.setobj1", "o.setin1"}},
+			{"txt", []string{"init.t"}, "t.delM", []string{"t.insM", "t.insM1"}},
+			{"txt", []string{"init.t"}, "t.repM", []string{"t.insM", "t.insM1"}},
+			{"tree", []string{"init.tr"}, "tr.delT0", []string{"tr.insT1", "tr.insT2"}},
+			{"tree", []string{"init.tr"}, "tr.delP0", []string{"tr.insT1", "tr.insT2"}},
+		} {
+			for swap := 0; swap < 2; swap++ {
+				pc := [][]string{{tr.a}, tr.b}
+				if swap == 1 {
+					pc[0], pc[1] = pc[1], pc[0]
+				}
+				out = append(out, &hist.Scenario{
+					Name: fmt.Sprintf("c01/%s/own-follow-up/%s|%s/swap%d/N2K3Y3", tr.fam, tr.a, strings.Join(tr.b, "+"), swap),
+					N:    2, Init: tr.init, Alphabet: append([]string{tr.a}, tr.b...), PerClient: pc, K: 3, Y: 3, Cfg: big,
+				})
+			}
+		}
 		// four and five clients, wide and shallow: every subset of the clients
 		// makes one (pairwise concurrent) edit, then every order in which the
 		// clients sync once; 495 / 4 061 histories per kind
